@@ -191,12 +191,7 @@ where
     Const<S>: DimMin<Const<S>, Output = Const<S>>,
 {
     let mut guess = SVector::<N, S>::from_column_slice(initial);
-    let mut norm = guess.dot(&guess).sqrt().abs();
     let mut n = 0;
-
-    if norm <= tol {
-        return Ok(guess);
-    }
 
     while n < n_max {
         let f_val = -f(guess.as_slice());
@@ -206,12 +201,10 @@ where
             None => return Err("newton: failed to solve linear equation".to_owned()),
             Some(adjustment) => {
                 let new_guess = guess + adjustment;
-                let new_norm = new_guess.dot(&new_guess).sqrt().abs();
-                if ((norm - new_norm) / norm).abs() <= tol || new_norm <= tol {
+                if adjustment.norm() <= tol {
                     return Ok(new_guess);
                 }
 
-                norm = new_norm;
                 guess = new_guess;
                 n += 1;
             }
